@@ -22,6 +22,7 @@ ROOT = os.path.dirname(os.path.dirname(os.path.abspath(__file__)))
 if ROOT not in sys.path:
     sys.path.insert(0, ROOT)
 
+OUT = os.environ.get('VERIF_OUT_DIR', ROOT)   # evidence/ and replays/ go here (seed runs redirect it)
 VENV_PY = os.environ.get('VERIF_VENV_PY', '/venv/bin/python')
 
 
@@ -163,7 +164,7 @@ def main(argv=None):
                 return k
         return None
 
-    os.makedirs(os.path.join(ROOT, 'replays'), exist_ok=True)
+    os.makedirs(os.path.join(OUT, 'replays'), exist_ok=True)
     n = 0
     for o in refuted:
         k = is_known(o['name'])
@@ -171,7 +172,7 @@ def main(argv=None):
             known_lines.append('KNOWN-FINDING: property=%s %s' % (a.prop, k['what']))
             continue
         witness = standin_fail[0] if standin_fail else None
-        path = os.path.join(ROOT, 'replays', '%s-%d.json' % (a.prop, n))
+        path = os.path.join(OUT, 'replays', '%s-%d.json' % (a.prop, n))
         n += 1
         with open(path, 'w') as f:
             json.dump({'property': a.prop, 'obligation': o['name'], 'line': o['line'], 'backend': o['backend'],
@@ -186,7 +187,7 @@ def main(argv=None):
             continue
         if refuted and not all(is_known(o['name']) for o in refuted):
             continue        # already attached as the system-level witness of a refuted obligation
-        path = os.path.join(ROOT, 'replays', '%s-%d.json' % (a.prop, n))
+        path = os.path.join(OUT, 'replays', '%s-%d.json' % (a.prop, n))
         n += 1
         with open(path, 'w') as fo:
             json.dump({'property': a.prop, 'obligation': None, 'bounded_standin': f['standin'], 'input': f}, fo, indent=1,
@@ -231,8 +232,8 @@ def main(argv=None):
         },
         'assumptions': cfg.get('assumptions', []),
     }
-    os.makedirs(os.path.join(ROOT, 'evidence'), exist_ok=True)
-    with open(os.path.join(ROOT, 'evidence', '%s.json' % a.prop), 'w') as f:
+    os.makedirs(os.path.join(OUT, 'evidence'), exist_ok=True)
+    with open(os.path.join(OUT, 'evidence', '%s.json' % a.prop), 'w') as f:
         json.dump(evidence, f, indent=1, default=str)
 
     print('%s: %d/%d obligations discharged over %d functions (%s); %d refuted, %d undecided, %d out of reach; '
